@@ -159,6 +159,7 @@ func main() {
 	}
 	replay := ""
 	buildOnly := false
+	onlyPart := ""
 	var passthru []string
 	for i := 2; i < len(os.Args); i++ {
 		switch os.Args[i] {
@@ -170,6 +171,11 @@ func main() {
 			replay = os.Args[i]
 		case "--build-only":
 			buildOnly = true
+		case "--part":
+			// development aid: run one part only (the evidence written is then partial;
+			// no registered command uses it)
+			i++
+			onlyPart = os.Args[i]
 		default:
 			passthru = append(passthru, os.Args[i])
 		}
@@ -178,6 +184,18 @@ func main() {
 	s := loadSpec(root, id)
 	if s == nil {
 		fatal("unknown property %q (no spec.json declares it)", id)
+	}
+	if onlyPart != "" {
+		kept := s.Parts[:0]
+		for _, p := range s.Parts {
+			if p.Name == onlyPart {
+				kept = append(kept, p)
+			}
+		}
+		if len(kept) == 0 {
+			fatal("property %s has no part %q", id, onlyPart)
+		}
+		s.Parts = kept
 	}
 	scratch, err := os.MkdirTemp("", "verif-"+id+"-")
 	if err != nil {
